@@ -85,6 +85,7 @@ type Step struct {
 	Rem  []int    `json:"rem,omitempty"`
 	// light client / partial / proofops families
 	Held  []int   `json:"held,omitempty"`
+	Cp    *JProof `json:"cp,omitempty"`
 	W     []int   `json:"w,omitempty"`
 	Bs    []int   `json:"b,omitempty"`
 	As    []int   `json:"as,omitempty"`
